@@ -1,18 +1,121 @@
 //go:build verif
 
-// verif driver for the store-core properties: one JSON history per stdin line -> one "@@OBS <json>" line.
+// verif driver for C03 / C06: one JSON history per stdin line -> one "@@OBS <json>" line.
 package main
 
 import (
 	"bufio"
+	"bytes"
 	"encoding/json"
 	"fmt"
+	"net/http/httptest"
 	"os"
 
+	"github.com/mimiro-io/datahub/internal/jobs"
 	"github.com/mimiro-io/datahub/internal/server"
+	"github.com/mimiro-io/datahub/internal/web"
 )
 
+// relationship query from inside a job's javascript transform (contextual store), JS helpers Query / PagedQuery
+func jsQuery(store *server.Store, dsm *server.DsManager, op server.VerifOp, tokens map[string]int64) (oo server.VerifOpObs) {
+	pages, err := jobs.VerifC03JobQuery(store, dsm, op.Starts, op.Pred, op.Inverse, op.Datasets, op.Limit)
+	if err != nil {
+		oo.Err = err.Error()
+		return
+	}
+	oo.RPages = pages
+	return
+}
+
+// POST /query through web.queryHandler; the continuation tokens of a paged query are kept per op id
+var httpSessions = map[string][]string{}
+
+func httpPost(store *server.Store, dsm *server.DsManager, body interface{}) (int, []byte) {
+	b, _ := json.Marshal(body)
+	e := web.VerifStoreEcho(store, dsm)
+	req := httptest.NewRequest("POST", "/query", bytes.NewReader(b))
+	req.Header.Set("Content-Type", "application/json")
+	rec := httptest.NewRecorder()
+	e.ServeHTTP(rec, req)
+	return rec.Code, rec.Body.Bytes()
+}
+
+func httpPage(st int, resp []byte) (page []server.VerifRel, conts []string, err string) {
+	page = []server.VerifRel{}
+	if st != 200 {
+		return page, nil, fmt.Sprintf("status %d: %s", st, string(resp))
+	}
+	var arr []json.RawMessage
+	if e := json.Unmarshal(resp, &arr); e != nil || len(arr) < 2 {
+		return page, nil, "unparsable response: " + string(resp)
+	}
+	var rows [][]json.RawMessage
+	if e := json.Unmarshal(arr[1], &rows); e != nil {
+		return page, nil, "unparsable rows"
+	}
+	for _, row := range rows {
+		if len(row) != 3 {
+			return page, nil, "row shape"
+		}
+		var s, p string
+		var ent struct {
+			ID string `json:"id"`
+		}
+		_ = json.Unmarshal(row[0], &s)
+		_ = json.Unmarshal(row[1], &p)
+		_ = json.Unmarshal(row[2], &ent)
+		page = append(page, server.VerifRel{Start: s, Pred: p, ID: ent.ID})
+	}
+	if len(arr) > 2 {
+		_ = json.Unmarshal(arr[2], &conts)
+	}
+	return page, conts, ""
+}
+
+// first page: {startingEntities, predicate, inverse, datasets, limit}
+func httpQ(store *server.Store, dsm *server.DsManager, op server.VerifOp, tokens map[string]int64) (oo server.VerifOpObs) {
+	dss := op.Datasets
+	if dss == nil {
+		dss = []string{}
+	}
+	st, resp := httpPost(store, dsm, map[string]interface{}{"startingEntities": op.Starts, "predicate": op.Pred, "inverse": op.Inverse,
+		"datasets": dss, "limit": op.Limit})
+	page, conts, e := httpPage(st, resp)
+	if e != "" {
+		oo.Err = e
+		return
+	}
+	oo.RPages = [][]server.VerifRel{page}
+	httpSessions[op.ID] = conts
+	return
+}
+
+// the remaining pages: {continuations, limit} until no continuation is left (capped)
+func httpCont(store *server.Store, dsm *server.DsManager, op server.VerifOp, tokens map[string]int64) (oo server.VerifOpObs) {
+	oo.RPages = [][]server.VerifRel{}
+	conts := httpSessions[op.ID]
+	for n := 0; len(conts) > 0; n++ {
+		if n >= 40 {
+			oo.Err = "paging does not terminate"
+			return
+		}
+		st, resp := httpPost(store, dsm, map[string]interface{}{"continuations": conts, "limit": op.Limit})
+		page, next, e := httpPage(st, resp)
+		if e != "" {
+			oo.Err = e
+			return
+		}
+		oo.RPages = append(oo.RPages, page)
+		conts = next
+	}
+	httpSessions[op.ID] = nil
+	return
+}
+
 func main() {
+	server.VerifExtOps["jsquery"] = jsQuery
+	server.VerifExtOps["httpq"] = httpQ
+	server.VerifExtOps["httpcont"] = httpCont
 	dir := os.Args[1]
 	in := bufio.NewScanner(os.Stdin)
 	in.Buffer(make([]byte, 1<<20), 1<<28)
@@ -25,6 +128,7 @@ func main() {
 			fmt.Fprintln(os.Stderr, "bad case:", err)
 			os.Exit(2)
 		}
+		httpSessions = map[string][]string{}
 		obs := server.VerifC03Run(c, fmt.Sprintf("%s/c%d", dir, i))
 		b, _ := json.Marshal(obs)
 		out.WriteString("@@OBS ")
